@@ -34,11 +34,27 @@ POOL = [
     "Either.A",
     "[Either]@val",
     "{e: _}",
+    # programs that are files next to a helper module of their own (same spelling ./helper, different files)
+    ("m := import(\"./helper\"); [m.name, m.cnt.next, m.cnt.next, m.keys].p", "name := \"helper of a\"; name.p; cnt := <{|i| yield i; recur(i + 1)}>.new(0)"),
+    ("m := import(\"./helper\"); m.name.p; import(\"./helper\").keys.p", "name := \"helper of b\"; other := 2; \"loading b\".p"),
+    ("h := import(\"./helper\"); h.items.p", "zzonly := 1"),
+    # a descendant of Str used as a map key / looked up, with names no other program has used before
+    "Loud := Str.bear({hello: m{\"hi from an earlier program\"}}); k := Loud.new(\"zzname1\"); [%{k: 1}[k], {zzother: 1}.which(Loud.new(\"zzname2\"))].p",
+    "e := \"zzname1 := 1; zzname2 := 2\".evalEnv; e.keys@{|k| [k, k.proto == Str, k.try.hello.A]}.p",
+    "h := import(\"./helper\"); h.keys@{|k| [k, k.proto == Str, k.try.hello.A]}.p",
 ]
+HELPER = {i: p[1] for i, p in enumerate(POOL) if isinstance(p, tuple)}
+HELPER[len(POOL) - 1] = "zzname1 := 3; zzname2 := 4"
+POOL = [p[0] if isinstance(p, tuple) else p for p in POOL]
+
+
+def helpers(idx):
+    return [HELPER.get(p, "") for p in idx]
 EMBEDDINGS = ["playground", "evalenv", "runtest"]
 
 
 def norm(emb, o):
+    o = re.sub(r"<dir>/t\d\d/", "<dir>/tNN/", o)
     if emb == "runtest":
         o = re.sub(r"t\d\d_test", "tNN_test", o)
         if o.endswith("\x1dstderr:\x1dexit:0"):       # the driver's final status is attached to the last file only
@@ -67,7 +83,7 @@ def run():
         sessions = [s for s in sessions if len(s) == 2] + ck.rng.sample([s for s in sessions if len(s) == 3], 900)
     # FreshObs: each program alone in a newly started interpreter process
     fresh = {}
-    freqs = [{"id": f"{emb}.{p}", "mode": "session", "embed": emb, "progs": [POOL[p]], "stdin": "l1\nl2\n"} for emb in EMBEDDINGS for p in range(n)]
+    freqs = [{"id": f"{emb}.{p}", "mode": "session", "embed": emb, "progs": [POOL[p]], "helpers": helpers([p]), "stdin": "l1\nl2\n"} for emb in EMBEDDINGS for p in range(n)]
     fout = run_cases(freqs, label="C19 fresh", isolate=True)      # a newly started process each: built-in objects are process-wide
     for emb in EMBEDDINGS:
         for p in range(n):
@@ -84,7 +100,7 @@ def run():
             if not all(usable(emb, POOL[p]) for p in idx):
                 continue
             rid = f"{si}.{emb}"
-            reqs.append({"id": rid, "mode": "session", "embed": emb, "progs": [POOL[p] for p in idx], "stdin": "l1\nl2\n", "deadline_ms": 20000})
+            reqs.append({"id": rid, "mode": "session", "embed": emb, "progs": [POOL[p] for p in idx], "helpers": helpers(idx), "stdin": "l1\nl2\n", "deadline_ms": 20000})
             meta[rid] = (emb, idx)
     out = run_cases(reqs, label="C19 sessions")
     rows, full = [], {}
@@ -127,7 +143,7 @@ def run():
     ck.cov["traces_validated_against_impl"] = len(rows)
     ck.cov["exhaustive"] = thorough
     ck.cov["rule"] = (f"pool of {n} programs (define variables, read names other programs define, raise the shared `_`, fail with 6 error kinds incl. syntax errors, "
-                      "shadow built-in names, evalEnv, exhaust built-in iterators, leave StopIterErr uncaught, pass keywords only through **, touch Either, read stdin); "
+                      "shadow built-in names, evalEnv, exhaust built-in iterators, leave StopIterErr uncaught, pass keywords only through **, touch Either, read stdin, import a module ./helper of their own directory, use Str descendants as map keys and inspect the key objects of evalEnv / import results); "
                       "sessions = all (history, probe) pairs and (quick: 900 seeded / thorough: all) two-program histories + probe, under playground, Str#evalEnv "
                       "and the real `pangaea test` driver; non-trivial = sessions of distinct programs")
     ck.assumptions = ["web/wasm/executor.go needs GOOS=js: its execute body (one constant scope, NewEnclosedEnv per run, IO re-injected) is reproduced in the worker",
